@@ -238,6 +238,17 @@ class Facts:
         for e in d.get("enums", []):
             self.enums.setdefault(e["qn"], e)
 
+    def callee(self, e):
+        """the function a call event resolves to (by the callee key and parameter signature the extractor records), or None"""
+        fk = e.get("fk")
+        if not fk:
+            return None
+        for k in (fk, "%s(%s)" % (fk, e.get("fs", "")), "%s(%s) const" % (fk, e.get("fs", ""))):
+            g = self.by_key.get(k)
+            if g is not None:
+                return g
+        return None
+
     # ------------------------------------------------------------ queries
     def fns(self, qn=None, cls=None, name=None, kind=None, pred=None):
         out = []
